@@ -343,7 +343,11 @@ def rule_lock_span(fx, col):
         if ok:
             gl = wr[0][1]['dest']['local']
             drops = b.releases(gl)
-            rel = [bb for bb, t in b.calls(include_cleanup=False) if U.callee_name(t) in ('from_ptr', 'inc')]
+            # the count-related steps that must sit under the lock: the inc of the value handed back and the from_ptr of what the
+            # exchange found (the rejected `new` is the caller's own value: it may — and should — be destroyed after the unlock)
+            xbb = {s_.bb for s_ in cell}
+            rel = [bb for bb, t in b.calls(include_cleanup=False) if U.callee_name(t) == 'inc' or
+                   (U.callee_name(t) == 'from_ptr' and any(o[0] == 'call' and o[1] in xbb for o in b.origins(t['args'][0], through_calls=lambda tt: [0] if U.callee_name(tt) in ('unwrap_or_else', 'unwrap_or', 'cast', 'cast_const', 'cast_mut') else None)))]
             after = set()
             for d in drops:
                 after |= b.reach_from(b.term(d)['target'], unwind=False)
@@ -358,6 +362,46 @@ def rule_lock_span(fx, col):
         from_x = len(xs) == 1 and bool(src) and all(o == ('call', xs[0].bb) for o in src)
         col.add('LOCK-SPAN', 'RwLock compare_and_swap|replies with what the exchange found', on_all and from_x,
                 'the exchange is on every path to return: %s; the value returned derives from its result only: %s (sources %s)' % (on_all, from_x, sorted(src, key=str)))
+
+
+def rule_lock_no_user_code(fx, col):
+    """C13 (no operation hangs on its own account) on the lock based reference strategy: nothing the user supplies runs while the
+    strategy holds its lock. A pointee destructor run under the write lock (the rejected `new`, a by-value `current`) that
+    touches the same container again blocks for ever on a lock its own thread holds — every lost rcu round of such a type."""
+    if not fx.has_feature('internal-test-strategies'):
+        return
+    from . import ledger as L
+    bodies = [b for b in fx.lib.bodies if (b.j.get('impl_self_ty') or '').startswith('std::sync::RwLock<')]
+    if not col.anchor('LOCK-NO-USER-CODE', 'impls for RwLock<()>', len(bodies) >= 3):
+        return
+    n = 0
+    for b in bodies:
+        for abb, t in b.calls(include_cleanup=False):
+            if not (U.callee_name(t) in ('read', 'write') and 'sync::' in t['callee'].get('path', '')):
+                continue
+            n += 1
+            thr = lambda tt: [0] if U.callee_name(tt) in ('expect', 'unwrap', 'unwrap_or_else', 'into_inner') else None
+            holders = [l for l in range(len(b.j['locals'])) if re.search(r'RwLock(Read|Write)Guard<', b.local_ty(l)) and ('call', abb) in b.origins(l, through_calls=thr)]
+            rel = sorted({x for l in holders for x in b.releases(l)})
+            # a temporary that is dropped in the same statement (`drop(self.write()..)`) holds nothing across other code
+            under = b.reach_from(b.term(abb)['target'], unwind=False, avoid=set(rel)) if b.term(abb).get('target') is not None else set()
+            bad = []
+            for bb in sorted(under):
+                if bb in rel:
+                    continue
+                tt = b.term(bb)
+                if tt['k'] == 'call' and L.user_call_kind(tt):
+                    bad.append('%s at %s' % (L.user_call_kind(tt), b.loc(bb)))
+                elif tt['k'] == 'call' and U.callee_name(tt) == 'drop' and tt['callee'].get('path', '').endswith('mem::drop'):
+                    a = (tt['callee'].get('args') or [''])[0]
+                    gens = [g for g in (b.j.get('generics') or []) if not g.startswith("'")]
+                    if any(re.search(r'(?<![\w])%s(?![\w])' % re.escape(g), a) for g in gens) and not re.search(r'RwLock(Read|Write)Guard<', a):
+                        bad.append('drop of a value of generic type %s at %s' % (a, b.loc(bb)))
+                if tt['k'] == 'drop' and tt.get('has_param') and not re.search(r'RwLock(Read|Write)Guard<', tt['ty']):
+                    bad.append('drop of %s at %s' % (tt['ty'], b.loc(bb)))
+            col.add('LOCK-NO-USER-CODE', '%s|%s() span' % (b.fname, U.callee_name(t)), not bad and bool(rel),
+                    'user code under the lock: %s (guard released at %s)' % (bad or 'none', [b.loc(x) for x in rel]), b.loc(abb))
+    col.floor('LOCK-NO-USER-CODE', 'lock acquisitions', n, 3)
 
 
 def rule_lock_poison(fx, col):
